@@ -173,88 +173,117 @@ pub fn explore<S: System>(sys: &S, cfg: &ExploreCfg) -> ExploreResult {
             break;
         }
 
-        let seen_ref = &seen;
-        let chunk = (frontier.len() / (rayon::current_num_threads() * 8)).max(1);
-        // owned chunks: states need not be Sync
-        let mut owned: Vec<Vec<(u32, S::State)>> = vec![];
-        let mut it = std::mem::take(&mut frontier).into_iter();
-        loop {
-            let c: Vec<(u32, S::State)> = it.by_ref().take(chunk).collect();
-            if c.is_empty() {
-                break;
-            }
-            owned.push(c);
-        }
-        let outs: Vec<ChunkOut<S>> = owned
-            .into_par_iter()
-            .map(|states| {
-                let mut out = ChunkOut::<S> {
-                    cands: vec![],
-                    transitions: 0,
-                    per_kind: BTreeMap::new(),
-                    outcomes: HashSet::new(),
-                    violation: None,
-                };
-                let mut local: HashSet<Vec<u8>> = HashSet::new();
-                'outer: for (id, st) in states.iter() {
-                    for a in sys.actions(st) {
-                        let mut s2 = st.clone();
-                        out.transitions += 1;
-                        *out.per_kind.entry(sys.kind(&a)).or_insert(0) += 1;
-                        let r = crate::catch(|| sys.step(&mut s2, &a));
-                        let fp = match r {
-                            Ok(Ok(fp)) => fp,
-                            Ok(Err(m)) => {
-                                out.violation = Some((*id, a, m));
-                                break 'outer;
-                            }
-                            Err(p) => {
-                                out.violation = Some((*id, a, format!("panic: {p}")));
-                                break 'outer;
-                            }
-                        };
-                        out.outcomes.insert(fp ^ crate::fnv(sys.kind(&a).as_bytes()));
-                        let key = sys.canon(&s2);
-                        if seen_ref.contains_key(&key) || local.contains(&key) {
-                            continue;
-                        }
-                        if let Err(m) = sys.invariant(&s2) {
-                            out.violation = Some((*id, a, format!("invariant broken in the state reached: {m}")));
-                            break 'outer;
-                        }
-                        local.insert(key.clone());
-                        out.cands.push(Cand { key, state: s2, parent: *id, action: a });
-                    }
-                }
-                out
-            })
-            .collect();
-
+        // The level is expanded in batches: the candidates of one batch are merged into `seen` before the
+        // next batch runs, so the memory held by not-yet-deduplicated candidates is bounded by the batch,
+        // not by the level.  The search stays level-synchronous: `next` collects the whole next level.
+        const BATCH: usize = 65_536;
         let mut next: Vec<(u32, S::State)> = vec![];
         let mut first_violation: Option<(u32, S::Action, String)> = None;
-        for out in outs {
-            res.transitions += out.transitions;
-            for (k, v) in out.per_kind {
-                *res.per_kind.entry(k).or_insert(0) += v;
+        let mut level_cap: Option<String> = None;
+        let mut it = std::mem::take(&mut frontier).into_iter();
+        loop {
+            let batch: Vec<(u32, S::State)> = it.by_ref().take(BATCH).collect();
+            if batch.is_empty() {
+                break;
             }
-            outcomes.extend(out.outcomes);
-            if first_violation.is_none() {
-                if let Some(v) = out.violation {
-                    first_violation = Some(v);
+            let seen_ref = &seen;
+            let chunk = (batch.len() / (rayon::current_num_threads() * 8)).max(1);
+            // owned chunks: states need not be Sync
+            let mut owned: Vec<Vec<(u32, S::State)>> = vec![];
+            let mut bit = batch.into_iter();
+            loop {
+                let c: Vec<(u32, S::State)> = bit.by_ref().take(chunk).collect();
+                if c.is_empty() {
+                    break;
+                }
+                owned.push(c);
+            }
+            let outs: Vec<ChunkOut<S>> = owned
+                .into_par_iter()
+                .map(|states| {
+                    let mut out = ChunkOut::<S> {
+                        cands: vec![],
+                        transitions: 0,
+                        per_kind: BTreeMap::new(),
+                        outcomes: HashSet::new(),
+                        violation: None,
+                    };
+                    let mut local: HashSet<Vec<u8>> = HashSet::new();
+                    'outer: for (id, st) in states.iter() {
+                        for a in sys.actions(st) {
+                            let mut s2 = st.clone();
+                            out.transitions += 1;
+                            *out.per_kind.entry(sys.kind(&a)).or_insert(0) += 1;
+                            let r = crate::catch(|| sys.step(&mut s2, &a));
+                            let fp = match r {
+                                Ok(Ok(fp)) => fp,
+                                Ok(Err(m)) => {
+                                    out.violation = Some((*id, a, m));
+                                    break 'outer;
+                                }
+                                Err(p) => {
+                                    out.violation = Some((*id, a, format!("panic: {p}")));
+                                    break 'outer;
+                                }
+                            };
+                            out.outcomes.insert(fp ^ crate::fnv(sys.kind(&a).as_bytes()));
+                            let key = sys.canon(&s2);
+                            if seen_ref.contains_key(&key) || local.contains(&key) {
+                                continue;
+                            }
+                            if let Err(m) = sys.invariant(&s2) {
+                                out.violation = Some((*id, a, format!("invariant broken in the state reached: {m}")));
+                                break 'outer;
+                            }
+                            local.insert(key.clone());
+                            out.cands.push(Cand { key, state: s2, parent: *id, action: a });
+                        }
+                    }
+                    out
+                })
+                .collect();
+
+            for out in outs {
+                res.transitions += out.transitions;
+                for (k, v) in out.per_kind {
+                    *res.per_kind.entry(k).or_insert(0) += v;
+                }
+                outcomes.extend(out.outcomes);
+                if first_violation.is_none() {
+                    if let Some(v) = out.violation {
+                        first_violation = Some(v);
+                    }
+                }
+                for c in out.cands {
+                    if seen.contains_key(&c.key) {
+                        continue;
+                    }
+                    let id = parents.len() as u32;
+                    seen.insert(c.key, id);
+                    parents.push((c.parent, c.action));
+                    next.push((id, c.state));
                 }
             }
-            for c in out.cands {
-                if seen.contains_key(&c.key) {
-                    continue;
-                }
-                let id = parents.len() as u32;
-                seen.insert(c.key, id);
-                parents.push((c.parent, c.action));
-                next.push((id, c.state));
+            if first_violation.is_some() {
+                break;
+            }
+            // caps are also enforced inside a level (the level then stays incomplete: `completed_depth`
+            // does not advance); everything expanded so far was judged
+            if seen.len() > cfg.max_states {
+                level_cap = Some(format!("state cap {} while expanding depth {}", cfg.max_states, depth));
+                break;
+            }
+            if t0.elapsed().as_secs_f64() > cfg.wall_cap_s {
+                level_cap = Some(format!("wall cap {}s while expanding depth {}", cfg.wall_cap_s, depth));
+                break;
             }
         }
         if let Some((pid, a, m)) = first_violation {
             res.violation = Some(Found { history: history::<S>(&parents, pid, Some(&a)), message: m });
+            break;
+        }
+        if let Some(c) = level_cap {
+            res.cap_hit = Some(c);
             break;
         }
         depth += 1;
